@@ -16,6 +16,7 @@ import (
 	"fmt"
 	"hash/crc32"
 	"os"
+	"runtime"
 	"sort"
 	"strconv"
 	"strings"
@@ -836,7 +837,38 @@ func execSched(t []string) string {
 			stop = time.Time{}
 		}
 		hist := func() (string, string, string) {
-			bq, err := et.BatchQueries(time.Unix(0, base+c.start), stop)
+			// watchdog: a Queries loop that never ends (e.g. a lost zero-time test on an ended cron schedule) must not
+			// eat the machine: give up on the whole process, the runner reports the crash with this case open
+			type res struct {
+				bq  []kapacitor.BatchQueries
+				err error
+			}
+			ch := make(chan res, 1)
+			go func() {
+				bq, err := et.BatchQueries(time.Unix(0, base+c.start), stop)
+				ch <- res{bq, err}
+			}()
+			var bq []kapacitor.BatchQueries
+			var err error
+			deadline := time.After(20 * time.Second)
+		wait:
+			for {
+				select {
+				case r := <-ch:
+					bq, err = r.bq, r.err
+					break wait
+				case <-deadline:
+					fmt.Fprintln(os.Stderr, "c16: ExecutingTask.BatchQueries did not return within 20 s:", strings.Join(t, " "))
+					os.Exit(4)
+				case <-time.After(50 * time.Millisecond):
+					var ms runtime.MemStats
+					runtime.ReadMemStats(&ms)
+					if ms.HeapAlloc > 1<<30 {
+						fmt.Fprintln(os.Stderr, "c16: ExecutingTask.BatchQueries allocated more than 1 GiB without returning:", strings.Join(t, " "))
+						os.Exit(4)
+					}
+				}
+			}
 			if err != nil {
 				return errKind(err), "-", "-"
 			}
